@@ -13,6 +13,8 @@ ASSUMPTIONS = [
     "collections.Counter(iterable) maps every element to its number of occurrences; itertools.chain.from_iterable concatenates (language library semantics)",
     "every Index belongs to exactly one of the three spaces (sum over the spaces of the per-space counts = length)",
     "Obj.longname / Obj.idx / base_and_exponent (inputs of optimize_contractions) are not under contract",
+    "optimize_contractions: the scheme search _optimize_contractions (a generator function) is an assumed callee that yields an arbitrary number of schemes; ranking proved for schemes of 1, 2 and 3 contractions (all schemes of one run of equal length) with arbitrary integer scalings; ranking_key(k, .) names the list the code builds for scheme k (ghost definition), which is compared with the documented ranking; ties between equally ranked schemes are not constrained; terms of 0-2 objects of every kind (number, symbol, tensor with exponent 1-3 or -1, delta, other) and one term of three objects",
+    "integer max()/min() are evaluated as if-then-else terms (no path split)",
 ]
 TRUSTED = []
 CK = "adcgen.generate_code.contraction:Contraction"
@@ -536,3 +538,341 @@ class GroupObjects(Contract):
             out.append(("every-returned-group-obeys-the-limit-on-simultaneously-contracted-objects",
                         (g.f["card"] <= limit) if ok else False))
         return out
+
+
+# --- optimize_contractions / unoptimized_contraction: what enters the scheme -----------------------
+# Every tensor and delta of the term enters with its multiplicity (exponent), numbers and symbols are
+# skipped, divisions and other objects are refused; the target indices are the requested ones (with
+# the requested spin) or the canonical ones of the term; the limits reach the scheme search unchanged.
+OC = "adcgen.generate_code.optimize_contractions:"
+_OBJ_KINDS = [("number", 1), ("symbol", 1), ("tensor", 1), ("tensor", 2), ("tensor", 3), ("delta", 1),
+              ("tensor", -1), ("other", 1)]
+
+
+def _oc_objects(vc):
+    """0-2 objects of every kind / exponent, and one term with three objects"""
+    n = vc.choose(4, "n_objects")
+    objs = []
+    for k in range(n):
+        kind, exp = _OBJ_KINDS[vc.choose(len(_OBJ_KINDS), f"object_{k}")] if n < 3 else \
+            [("tensor", 1), ("number", 1), ("delta", 1)][k]
+        objs.append(Struct("TermObj", kind=kind, exp=exp, pos=k,
+                           lname=Struct("LongName", pos=k), oidx=Struct("ObjIdx", pos=k)))
+    return objs
+
+
+def _oc_install():
+    C.STRUCT_ATTR[("TermArg", "objects")] = lambda ip, o: tuple(o.f["objs"])
+    C.STRUCT_ATTR[("TermArg", "target")] = lambda ip, o: o.f["target"]
+    C.STRUCT_ATTR[("TermObj", "base_and_exponent")] = lambda ip, o: (Struct("BaseOf", kind=o.f["kind"]), o.f["exp"])
+    C.STRUCT_ATTR[("TermObj", "sympy")] = lambda ip, o: Struct("SympyOf", number=o.f["kind"] == "number")
+    C.STRUCT_ATTR[("SympyOf", "is_number")] = lambda ip, o: o.f["number"]
+    C.STRUCT_ATTR[("TermObj", "idx")] = lambda ip, o: o.f["oidx"]
+    C.STRUCT_METHODS[("TermObj", "longname")] = lambda ip, o, a, k: o.f["lname"]
+    # the indices of an object are opaque: nothing is known about their membership in the targets
+    C.STRUCT_ITER["ObjIdx"] = lambda ip, o: []
+
+    def isinst(ip, v, cls):
+        names = {(c.key if hasattr(c, "key") else getattr(c, "dotted", str(c))).split(":")[-1].split(".")[-1]
+                 for c in (cls if isinstance(cls, tuple) else (cls,))}
+        kind = v.f["kind"]
+        if kind == "symbol":
+            return "Symbol" in names
+        if kind == "tensor":
+            return "SymbolicTensor" in names
+        if kind == "delta":
+            return "KroneckerDelta" in names
+        return False
+    C.STRUCT_ISINSTANCE["BaseOf"] = isinst
+    C.CLASS_MODELS["adcgen.generate_code.contraction:Contraction"] = \
+        lambda ip, a, k: Struct("ContractionV", args=tuple(a), kw=dict(k))
+
+
+def _oc_expected(objs):
+    """(names, indices) of the objects that enter, None if the term is refused"""
+    names, idx = [], []
+    for o in objs:
+        kind, exp = o.f["kind"], o.f["exp"]
+        if kind == "number":
+            continue
+        if exp < 0:
+            return None, "NotImplementedError"
+        if kind == "symbol":
+            continue
+        if kind == "other":
+            return None, "NotImplementedError"
+        names.extend([o.f["lname"]] * exp)
+        idx.extend([o.f["oidx"]] * exp)
+    return (names, idx), None
+
+
+def _same_items(got, want):
+    items = got.items if isinstance(got, PList) else list(got) if isinstance(got, tuple) else None
+    return items is not None and len(items) == len(want) and all(x is y for x, y in zip(items, want))
+
+
+@register
+class _GetSymbolsMarker(Contract):
+    key = "adcgen.indices:get_symbols"
+    props = []
+    assumed = True
+    note = "import of the requested target names with the requested spins (C08 registry checks)"
+
+    def apply(self, vc, a):
+        return PList([Struct("ImportedTargets", names=a["indices"], spins=a.get("spins"))])
+
+
+def _oc_target_ok(a, got):
+    if a["target_indices"] is None:
+        return got is a["term"].f["target"]
+    return isinstance(got, tuple) and len(got) == 1 and isinstance(got[0], Struct) \
+        and got[0].cls == "ImportedTargets" and got[0].f["names"] is a["target_indices"] \
+        and got[0].f["spins"] is a["target_spin"]
+
+
+class _ExtractionContract(Contract):
+    props = ["C16"]
+
+    def setup(self, vc):
+        _oc_install()
+        objs = _oc_objects(vc)
+        named = vc.choose(2, "target_indices_given") == 1
+        a = {"term": Struct("TermArg", objs=objs, target=Struct("CanonicalTargets")),
+             "target_indices": Struct("TargetNames") if named else None,
+             "target_spin": (Struct("TargetSpin") if vc.choose(2, "target_spin_given") == 1 else None)
+             if named else None}
+        return a
+
+    def raises(self, vc, a):
+        exp, exc = _oc_expected(a["term"].f["objs"])
+        return [("NotImplementedError", exc is not None)]
+
+
+@register
+class UnoptimizedContraction(_ExtractionContract):
+    key = OC + "unoptimized_contraction"
+
+    def post(self, vc, a, result):
+        (names, idx), _ = _oc_expected(a["term"].f["objs"])
+        ok = isinstance(result, PList) and len(result.items) == 1 and isinstance(result.items[0], Struct) \
+            and result.items[0].cls == "ContractionV" and not result.items[0].f["args"]
+        kw = result.items[0].f["kw"] if ok else {}
+        return [("a-single-contraction-is-returned", ok),
+                ("every-tensor-and-delta-enters-with-its-multiplicity", ok and _same_items(kw.get("names"), names)),
+                ("with-its-indices", ok and _same_items(kw.get("indices"), idx)),
+                ("the-target-indices-are-the-requested-ones-with-the-requested-spin-or-the-canonical-ones",
+                 ok and _oc_target_ok(a, kw.get("term_target_indices")))]
+
+
+# --- optimize_contractions: extraction, single object case and the ranking of the schemes -----------
+SCAL = z3.Function("scaling_of", z3.IntSort(), z3.IntSort(), z3.IntSort(), z3.IntSort(), z3.IntSort())
+KEYF = z3.Function("ranking_key", z3.IntSort(), z3.IntSort(), z3.IntSort())    # (scheme, position) -> int
+_FIELDS = []
+
+
+def _scaling_fields():
+    """field names of ScalingComponent in the order of the real dataclass (read from the source)"""
+    if not _FIELDS:
+        import ast
+        from pyvc.source import SourceTable
+        node = SourceTable().classes["adcgen.generate_code.contraction:ScalingComponent"]
+        _FIELDS.extend(st.target.id for st in node.body if isinstance(st, ast.AnnAssign))
+    return list(_FIELDS)
+
+
+def _scheme(k, length):
+    return PList([Struct("ContrV", scheme=k, pos=j) for j in range(length)])
+
+
+def _rank_install():
+    C.STRUCT_ATTR[("ContrV", "scaling")] = lambda ip, o: Struct("ScalingV", scheme=o.f["scheme"], pos=o.f["pos"])
+    for w, which in enumerate(("computational", "memory")):
+        C.STRUCT_ATTR[("ScalingV", which)] = (lambda w: lambda ip, o: Struct(
+            "ScalingCompV", scheme=o.f["scheme"], pos=o.f["pos"], which=w))(w)
+    for f, name in enumerate(_scaling_fields()):
+        C.STRUCT_ATTR[("ScalingCompV", name)] = (lambda f: lambda ip, o: Sym(
+            SCAL(term(o.f["scheme"]), o.f["pos"], o.f["which"], f)))(f)
+    C.STRUCT_ATTR[("FieldV", "name")] = lambda ip, o: o.f["fname"]
+    C.EXTERNALS["dataclasses.fields"] = lambda ip, a, k: tuple(Struct("FieldV", fname=n) for n in _scaling_fields())
+
+    def gen_symiter(ip, obj):
+        from pyvc.builtins import SymIter
+        return SymIter("schemes", obj, Sym(obj.f["n"]), lambda ip_, k: _scheme(k, obj.f["length"]))
+    C.STRUCT_SYMITER["SchemeGen"] = gen_symiter
+
+
+def _spec_key(k, length):
+    """the documented ranking: per field (in dataclass order) the maximal computational scaling of the
+    scheme and the number of contractions that reach it, then the same for the memory scaling"""
+    key = []
+    for which in (0, 1):
+        for f in range(len(_scaling_fields())):
+            vals = [SCAL(term(k), j, which, f) for j in range(length)]
+            mx = vals[0]
+            for v in vals[1:]:
+                mx = z3.If(v > mx, v, mx)
+            key.append((mx, z3.Sum([z3.If(v == mx, 1, 0) for v in vals]) if length > 1 else z3.IntVal(1)))
+    # computational (max, count) pairs first, then the memory pairs
+    return [x for pair in key for x in pair]
+
+
+def _lex_less(a, b, strict):
+    """lexicographic order of two equally long lists of integer terms"""
+    res = z3.BoolVal(not strict)
+    for x, y in reversed(list(zip(a, b))):
+        res = z3.Or(x < y, z3.And(x == y, res))
+    return res
+
+
+def _keyf(o, npos):
+    return [KEYF(term(o), p) for p in range(npos)]
+
+
+class _RankLoop(LoopContract):
+    header = "contraction_schemes"
+    modifies = ("scheme", "scaling", "mem", "field", "comp_values", "mem_values", "optimal_scheme",
+                "optimal_scaling")
+
+    def iter_spec(self, vc, frame, seq):
+        return [("runs-over-the-schemes-of-the-search", isinstance(seq.obj, Struct) and seq.obj.cls == "SchemeGen")]
+
+    def havoc(self, vc, frame, k, seq):
+        for nm in ("scheme", "scaling", "mem", "field", "comp_values", "mem_values"):
+            frame.locals.pop(nm, None)
+        gen = vc.ghost["_schemes"]
+        npos = 4 * len(_scaling_fields())
+        if vc.decide(term(k) == 0):
+            frame["optimal_scheme"], frame["optimal_scaling"] = None, None
+            vc.ghost["_best"] = None
+        else:
+            o = vc.fresh_int("best_so_far")
+            vc.ghost["_best"] = o
+            frame["optimal_scheme"] = _scheme(Sym(o), gen.f["length"])
+            frame["optimal_scaling"] = PList([Sym(t) for t in _keyf(o, npos)])
+
+    def invariant(self, vc, frame, k, seq):
+        gen = vc.ghost["_schemes"]
+        npos = 4 * len(_scaling_fields())
+        kk = term(k)
+        best, key = frame["optimal_scheme"], frame["optimal_scaling"]
+        if best is None or key is None:
+            return [("no-scheme-is-selected-only-before-the-first-one", z3.And(kk == 0, best is None, key is None))]
+        cur = frame.locals.get("scheme")
+        extra = []
+        if cur is not None:
+            # end of the body: the list the code built for this scheme is named ranking_key(k, .)
+            # (ghost definition at a fresh point of the uninterpreted function) and compared with
+            # the documented ranking
+            built = frame.locals.get("scaling")
+            okb = isinstance(built, PList) and len(built.items) == npos
+            if okb:
+                for p, x in enumerate(built.items):
+                    vc.assume(KEYF(kk - 1, p) == term(x))
+            spec = _spec_key(kk - 1, gen.f["length"])
+            extra = [("the-ranking-key-is-per-field-the-maximal-scaling-and-how-often-it-is-reached-computational-before-memory",
+                      z3.And(*[term(x) == t for x, t in zip(built.items, spec)]) if okb else False)]
+        if cur is not None and best is cur:
+            # the scheme of this iteration was selected: its ranking key is the list the code built
+            o = term(cur.items[0].f["scheme"])
+        else:
+            o = vc.ghost.get("_best")
+            if o is None:
+                return [("selected-scheme-is-one-of-the-schemes-seen", False)]
+        same = isinstance(best, PList) and len(best.items) == gen.f["length"] and \
+            all(isinstance(c, Struct) and c.cls == "ContrV" and c.f["pos"] == j for j, c in enumerate(best.items))
+        sch = z3.And(*[term(c.f["scheme"]) == o for c in best.items]) if same else False
+        keyok = isinstance(key, PList) and len(key.items) == npos
+        keyeq = z3.And(*[term(x) == t for x, t in zip(key.items, _keyf(o, npos))]) if keyok else False
+        m = z3.Int("m!rank")
+        return extra + [("selected-scheme-is-one-of-the-schemes-seen", z3.And(sch, o >= 0, o < kk)),
+                ("its-ranking-key-is-kept-with-it", keyeq),
+                ("no-scheme-seen-so-far-ranks-lower",
+                 z3.ForAll([m], z3.Implies(z3.And(m >= 0, m < kk), _lex_less(_keyf(o, npos), _keyf(m, npos), False))))]
+        # (which of several equally ranked schemes is kept is not part of the property)
+
+
+def _rank_key_defined(ip, frame):
+    """ghost: names the list the code built for scheme k as ranking_key(k, .) and checks it against the
+    documented ranking (called when `scaling.extend(mem)` completed the list)"""
+
+
+class _SchemeSearch(Contract):
+    key = OC + "_optimize_contractions"
+    props = []
+    assumed = True
+    note = "generator function (scheme enumeration): bounded stand-in schemes.execute; here: an arbitrary sequence of schemes"
+
+    def pre(self, vc, a):
+        want = vc.ghost["_oc_expected"]
+        req = vc.ghost["_oc_args"]
+        return [("every-tensor-and-delta-enters-the-search-with-its-multiplicity",
+                 _same_items(a["relevant_obj_names"], want[0])),
+                ("with-its-indices", _same_items(a["relevant_obj_indices"], want[1])),
+                ("the-target-indices-are-the-requested-ones-with-the-requested-spin-or-the-canonical-ones",
+                 _oc_target_ok(req, a["target_indices"])),
+                ("the-limits-reach-the-search-unchanged",
+                 a["max_itmd_dim"] is req["max_itmd_dim"]
+                 and a["max_n_simultaneous_contracted"] is req["max_n_simultaneous_contracted"])]
+
+    def fresh_result(self, vc, a):
+        n = vc.fresh_int("n_schemes")
+        vc.assume(n >= 0)
+        gen = Struct("SchemeGen", n=n, length=1 + vc.choose(3, "contractions_per_scheme"))
+        vc.ghost["_schemes"] = gen
+        return gen
+
+
+register(_SchemeSearch)
+
+
+def _list_extend_hook(ip, obj, args, kwargs):
+    raise Unsupported("unused")
+
+
+@register
+class OptimizeContractions(_ExtractionContract):
+    key = OC + "optimize_contractions"
+    loops = {1: _RankLoop()}
+
+    def setup(self, vc):
+        a = super().setup(vc)
+        _rank_install()
+        a["max_itmd_dim"] = Struct("MaxItmdDim")
+        a["max_n_simultaneous_contracted"] = Struct("MaxN")
+        exp, _ = _oc_expected(a["term"].f["objs"])
+        vc.ghost["_oc_expected"] = exp
+        vc.ghost["_oc_args"] = a
+        return a
+
+    def may_raise(self, vc, a):
+        # (the search is an assumed callee: whether it finds a scheme is only known after the call)
+        gen = vc.ghost.get("_schemes")
+        return [("RuntimeError", gen.f["n"] == 0)] if gen is not None else []
+
+    def post(self, vc, a, result):
+        (names, idx), _ = _oc_expected(a["term"].f["objs"])
+        if not names:
+            return [("no-contraction-for-a-term-without-tensors", isinstance(result, PList) and not result.items)]
+        if len(names) == 1:
+            ok = isinstance(result, PList) and len(result.items) == 1 and isinstance(result.items[0], Struct) \
+                and result.items[0].cls == "ContractionV" and not result.items[0].f["args"]
+            kw = result.items[0].f["kw"] if ok else {}
+            return [("a-single-contraction-for-a-single-object", ok),
+                    ("of-that-object", ok and _same_items(kw.get("names"), names)
+                     and _same_items(kw.get("indices"), idx)),
+                    ("the-target-indices-are-the-requested-ones-with-the-requested-spin-or-the-canonical-ones",
+                     ok and _oc_target_ok(a, kw.get("term_target_indices")))]
+        gen = vc.ghost["_schemes"]
+        npos = 4 * len(_scaling_fields())
+        ok = isinstance(result, PList) and len(result.items) == gen.f["length"] and \
+            all(isinstance(c, Struct) and c.cls == "ContrV" and c.f["pos"] == j for j, c in enumerate(result.items))
+        if not ok:
+            return [("one-of-the-schemes-of-the-search-is-returned", False)]
+        o = term(result.items[0].f["scheme"])
+        m = z3.Int("m!post")
+        n = gen.f["n"]
+        return [("one-of-the-schemes-of-the-search-is-returned",
+                 z3.And(o >= 0, o < n, *[term(c.f["scheme"]) == o for c in result.items])),
+                ("no-scheme-of-the-search-ranks-lower-than-the-returned-one",
+                 z3.ForAll([m], z3.Implies(z3.And(m >= 0, m < n),
+                                           _lex_less(_keyf(o, npos), _keyf(m, npos), False))))]
